@@ -604,7 +604,10 @@ func (p *Prog) mayReturnNilNil(f *ssa.Function, depth int) bool {
 		return false
 	}
 	if _, isIface := res.At(0).Type().Underlying().(*types.Interface); isIface {
-		return false // interface results (response objects) are conventionally nil with nil error; out of scope
+		// generated API response objects are conventionally nil together with a nil error and are only passed on
+		if n := recvNamed(res.At(0).Type()); n == nil || strings.HasSuffix(n.Obj().Name(), "ResponseObject") {
+			return false
+		}
 	}
 	yes := false
 	for _, b := range f.Blocks {
